@@ -224,6 +224,7 @@ CLAIMED = {
          'VTIMEZONE names present, total (never an error); after add-missing every used, known, previously absent id '
          'has exactly one VTIMEZONE, present ones are untouched, unknown ids stay missing, the used set is unchanged, and '
          'a second call changes nothing. Provider knowledge is an abstract predicate.',
+         'Calendar.timezones, get_used_tzids, get_missing_tzids, add_missing_timezones are regenerated from the source by tools/py2lean.py (Python sets as duplicate-free lists, compared sorted) and proved equal to the hand model (body_timezones, body_get_used_tzids, body_get_missing_tzids, body_add_missing_timezones). '
          'Trusted: Lean kernel; hand models of get_used_tzids / get_missing_tzids / add_missing_timezones tied by '
          'correspondence (calendars with used, unused, unknown, duplicate and TZID-less VTIMEZONEs, repeated calls); the '
          'content of a generated VTIMEZONE is C13.',
